@@ -444,7 +444,8 @@ def run_interp(case, ctx, d):
                 m = np.diff(y) / np.diff(x)
                 w = abs(m[1] - m[0]) + abs(m[-1] - m[-2])
                 amb = w <= 1e-6 * (abs(m[0]) + abs(m[-1])) + 1e-300
-            tol = 2 * PRINT_REL * max(abs(yd[0]), abs(yd[-1])) + 1e-9 * M
+            # (+ the rounding noise of a slope: values of size Y over the shortest interval; constant data have M = 0)
+            tol = 2 * PRINT_REL * max(abs(yd[0]), abs(yd[-1])) + 1e-9 * M + 64 * 2.3e-16 * Y / hmin
             if not amb and abs(yd[0] - yd[-1]) > tol:
                 return r.fail(key, f"--type {typ} --boundaries periodic, {n} points: derivative {yd[0]:.10g} at the first point, {yd[-1]:.10g} at the last")
     # ---- (4) the derivative table is the derivative of the value table: finer resample of the same spline
